@@ -7,6 +7,7 @@ import Driver.DetStream
 import Driver.WinStream
 import Driver.FsStream
 import Driver.WriterStream
+import Driver.E2EStream
 open Driver
 
 def main (args : List String) : IO UInt32 := do
@@ -27,4 +28,6 @@ def main (args : List String) : IO UInt32 := do
   | ["mon", "fs"] => runMon FsStream.monInit FsStream.monStep FsStream.monFinish; return 0
   | ["model", "writer"] => runModel WriterStream.init WriterStream.step; return 0
   | ["mon", "writer"] => runMon WriterStream.monInit WriterStream.monStep WriterStream.monFinish; return 0
+  | ["model", "e2e"] => runModel E2EStream.init E2EStream.step; return 0
+  | ["mon", "e2e"] => runMon E2EStream.monInit E2EStream.monStep E2EStream.monFinish; return 0
   | _ => IO.eprintln "usage: driver model|mon <stream>"; return 2
